@@ -59,12 +59,22 @@ func VerifC05Raw() {
 	for i := 0; i+1 < len(body); i++ {
 		nd.Assume(!(body[i] == '{' && body[i+1] == '%' && c05HasEnd(body[i:])))
 	}
+	// another engine with other delimiters has scanned raw and comment blocks before (and will again
+	// after): engines do not share scanner state
+	other := NewEngine().Delims("<<", ">>", "<%", "%>")
+	oo, oerr := other.ParseAndRenderString("p<% raw %>x {% y <% endraw %>q<% comment %>{% z <% endcomment %>r", Bindings{})
+	nd.Assert(oerr == nil && oo == "px {% y qr", "raw-renders")
 	out, err := vRender("a {% raw %}"+body+"{% endraw %} b", Bindings{})
 	nd.Assert(err == nil, "raw-renders")
 	nd.Assert(out == "a "+body+" b", "raw-body-verbatim")
 	out, err = vRender("a {% comment %}"+body+"{% endcomment %} b", Bindings{})
 	nd.Assert(err == nil, "comment-renders")
 	nd.Assert(out == "a  b", "comment-contributes-nothing")
+	oo, oerr = other.ParseAndRenderString("p<% raw %><< y <% endraw %> >>q", Bindings{})
+	nd.Assert(oerr == nil && oo == "p<< y  >>q", "raw-renders")
+	// hyphens on the inner sides of a comment's own tags face the discarded body: the text outside stays
+	out, err = vRender("a {% comment -%} "+body+" {%- endcomment %} b|a {%- comment %}"+body+"{% endcomment -%} b", Bindings{})
+	nd.Assert(err == nil && out == "a  b|ab", "comment-inner-hyphens-leave-the-outside-alone")
 	// several blocks in one template: each raw block emits its own body only
 	out, err = vRender("{% raw %}"+body+"{% endraw %}-{% comment %}"+body+"{% endcomment %}{% raw %}R{% endraw %}-{% raw %}"+body+"{% endraw %}", Bindings{})
 	nd.Assert(err == nil && out == body+"-R-"+body, "each-raw-block-emits-its-own-body")
